@@ -298,6 +298,7 @@ func Run(sc *pw.Scenario) *simkit.Outcome {
 
 	// ---- the observed packs ----
 	res := make([]*result, len(sc.Runs))
+	book := &simkit.TapeBook{Tapes: sc.Tapes, Have: sc.HaveTape}
 	var sched *simkit.Sched
 	runOne := func(i int, y simkit.Yielder, ps simkit.PipeSched) {
 		rn := sc.Runs[i]
@@ -325,21 +326,14 @@ func Run(sc *pw.Scenario) *simkit.Outcome {
 				return out
 			}
 			if rn.RoundTrip == "pipe" {
-				runPipelined(sc, i, res, log, out)
+				runPipelined(sc, book, i, res, log, out)
 				continue
 			}
 			runOne(i, nil, nil)
 		}
 	} else {
 		os.Chdir(sc.Runs[0].Cwd)
-		var fb *simkit.RNG
-		var tape []int
-		if sc.HaveTape {
-			tape = sc.Tape
-		} else {
-			fb = simkit.NewRNG(sc.SchedSeed, "pw/sched")
-		}
-		sched = simkit.NewSched(log, tape, fb, sc.SchedShape)
+		sched = book.NewSched(log, sc.SchedSeed, "pw/sched", sc.SchedShape)
 		for i := range sc.Runs {
 			i := i
 			sched.Go(fmt.Sprintf("pack%d", i), func(tk *simkit.Task) { runOne(i, sched, sched) })
@@ -356,7 +350,6 @@ func Run(sc *pw.Scenario) *simkit.Outcome {
 		if err := sched.Run(); err != nil {
 			out.Violate("C19", "pack-sched", "deadlock", "concurrent Pack tasks: "+err.Error())
 		}
-		out.Tape = sched.Recorded
 		out.Decisions = sched.Decisions
 		out.Inter = sched.InterleavingHash()
 		if sched.Decisions > 0 {
@@ -414,6 +407,7 @@ func Run(sc *pw.Scenario) *simkit.Outcome {
 			out.Nontrivial = true
 		}
 	}
+	out.Tapes = book.Collect()
 	out.TraceHash = log.Hash()
 	out.Steps = log.Steps
 	out.Events = log.Events
@@ -441,18 +435,11 @@ func shapeOf(sc *pw.Scenario) string {
 }
 
 // runPipelined runs Pack and Unpack as two scheduled tasks over a SimPipe.
-func runPipelined(sc *pw.Scenario, i int, res []*result, log *simkit.Log, out *simkit.Outcome) {
+func runPipelined(sc *pw.Scenario, book *simkit.TapeBook, i int, res []*result, log *simkit.Log, out *simkit.Outcome) {
 	rn := sc.Runs[i]
 	r := &result{}
 	res[i] = r
-	var fb *simkit.RNG
-	var tape []int
-	if sc.HaveTape {
-		tape = sc.Tape
-	} else {
-		fb = simkit.NewRNG(sc.SchedSeed+uint64(i), "pw/pipe")
-	}
-	sched := simkit.NewSched(log, tape, fb, "random")
+	sched := book.NewSched(log, sc.SchedSeed+uint64(i), "pw/pipe", "random")
 	pipe := simkit.NewSimPipe(rn.PipeCap, sched, log)
 	pipe.Chunks = rn.Chunks
 	pipe.BreakAt = rn.PipeBreak
@@ -478,7 +465,6 @@ func runPipelined(sc *pw.Scenario, i int, res []*result, log *simkit.Log, out *s
 	if err := sched.Run(); err != nil {
 		out.Violate("C19", "pipe-sched", "deadlock", fmt.Sprintf("run %d: pipelined Pack/Unpack: %v", i, err))
 	}
-	out.Tape = sched.Recorded
 	out.Decisions += sched.Decisions
 	out.Inter = sched.InterleavingHash()
 	for k, v := range pipe.Fired {
